@@ -23,6 +23,7 @@
 (*        (delta does not hash to the signed / suffix-data delta hash)     *)
 (*        | "absent" (no delta member at all: treated like a mismatch)     *)
 (*   win  "none" (no window declared) | "in" | "early" | "late"            *)
+(*        | "until2" / "from2" (window edge exactly at transaction time 2) *)
 (*   p    content token                                                    *)
 (*   sfx  D only: "ok" | "bad" (signed suffix differs from request suffix) *)
 (* An ANCHORED operation is [sh, t, n, pub]: shape, transaction time,      *)
@@ -49,7 +50,10 @@ SortOps(S) == SortSeq(SetToSeq(S), Earlier)
 NoState == [doc |-> <<>>, uc |-> NoC, rc |-> NoC, deact |-> FALSE,
             lt |-> 0, ln |-> 0, exists |-> FALSE, log |-> <<>>]
 
-InWin(o) == o.sh.win \in {"none", "in"}
+(* "until2": the declared window ends exactly at transaction time 2 (inclusive); "from2": it begins exactly there *)
+InWin(o) == \/ o.sh.win \in {"none", "in"}
+            \/ o.sh.win = "until2" /\ o.t <= 2
+            \/ o.sh.win = "from2" /\ o.t >= 2
 
 LogEntry(chain, c, o) == [chain |-> chain, c |-> c, ty |-> o.sh.ty, t |-> o.t, n |-> o.n, pub |-> o.pub, p |-> o.sh.p,
                           nc |-> IF o.sh.ty = "U" THEN o.sh.nuc ELSE IF o.sh.ty = "R" THEN o.sh.nrc ELSE NoC]
